@@ -97,7 +97,7 @@ def evaluate(plan, ctx):
     te = [int(i) for i in sim.test_indices]
     if len(set(te)) != len(te) or not all(0 <= i < n for i in te):
         raise Violation("test_indices", "test indices %r are not distinct rows of 0..%d" % (te, n - 1))
-    if len(te) != plan["n_test"]:
+    if plan.get("exact_count", True) and len(te) != plan["n_test"]:
         raise Violation("test_size", "%d test rows for test_size %r of %d rows (expected %d)" % (len(te), plan["test_size"], n, plan["n_test"]))
     if plan["is_ordered"] and te != list(range(n - len(te), n)):
         raise Violation("test_indices", "ordered split: test indices %r are not the last %d rows" % (te, len(te)))
@@ -177,7 +177,7 @@ def evaluate(plan, ctx):
     return Result(nt, ev)
 
 
-SUBCHECKS = [SubCheck("bookkeeping", strategy, evaluate, quick=3000, thorough=25000)]
+SUBCHECKS = [SubCheck("bookkeeping", strategy, evaluate, quick=8000, thorough=60000)]
 KNOWN = {}
 
 MANIFEST = {
